@@ -50,8 +50,11 @@ def main(ctx):
         seed = ctx.seed * 1000 + i
         jobs.append({"seed": seed, "tag": "close", "close": True, "writers": 2 + i % 4})
         f = "%s:%d:%d" % (faults[i % len(faults)], rng.randint(1, 12), rng.choice([1, 1, 3, 0]))
-        jobs.append({"seed": seed, "tag": "fault-" + f.replace(":", "_"), "fault": f})
-        jobs.append({"seed": seed, "tag": "faultclose-" + f.replace(":", "_"), "fault": f, "close": True})
+        jobs.append({"seed": seed, "tag": "fault-" + f.replace(":", "_"), "fault": f, "writers": 3 + i % 3, "fat": 3})
+        jobs.append({"seed": seed, "tag": "faultclose-" + f.replace(":", "_"), "fault": f, "close": True, "writers": 3 + i % 3, "fat": 3})
+        # journal faults while groups overflow: the error path of the hand-off
+        jf = "%s:journal:%d:%d" % (rng.choice(["write", "sync"]), rng.randint(2, 40), rng.choice([1, 3, 0]))
+        jobs.append({"seed": seed, "tag": "jfault-" + jf.replace(":", "_"), "fault": jf, "writers": 5, "fat": 2})
     csums = conc_runs(ctx, jobs)
     judge(ctx, csums, "C09")
     ctx.extra["concurrent_runs_with_fault_injected"] = sum(1 for s in csums if s.get("injected", 0) > 0)
